@@ -270,6 +270,38 @@ func TestVerif_C20Processor(t *testing.T) {
 				return
 			}
 			c.Count("alternating_write_failures_logged", int64(gotA+gotB))
+			// "identical to the last message actually printed": a recurring refusal (every frame) and a
+			// continuous recorder whose file cannot be closed (every max-secs*fps+1 frames) - after each
+			// stop-failure line the refusal is the newer, different message and is printed again
+			buf.Reset()
+			fr := newFsmRun(fsmConfig{FPS: 3, Preview: 1, Trigger: 1, Min: 1, Max: 2, Constant: true})
+			fr.fault = func(sink int, op byte, n int) bool { return sink == sinkConst && op == opStop }
+			fr.step(fsmEvent{Kind: evFrame})
+			for i := 0; i < 120; i++ {
+				fr.step(fsmEvent{Kind: evMotion, CheckFail: true})
+			}
+			stopLines, refusalSince, lonely := 0, true, 0
+			for _, line := range strings.Split(buf.String(), "\n") {
+				switch {
+				case strings.Contains(line, "constant recorder"):
+					stopLines++
+					if !refusalSince {
+						lonely++
+					}
+					refusalSince = false
+				case strings.Contains(line, "Recording not started"):
+					refusalSince = true
+				}
+			}
+			if stopLines < 5 {
+				c.Inconclusive(fmt.Sprintf("only %d stop-failure lines in 120 frames", stopLines))
+				return
+			}
+			if lonely > 0 {
+				c.Violation("message-suppressed-although-another-line-was-printed-since", "", fmt.Sprintf("%d of %d 'error with stoping constant recorder' lines follow the previous one with no 'Recording not started' line in between, although the refusal recurred on every frame: the refusal was suppressed as a repeat while the last printed line was a different one", lonely, stopLines))
+				return
+			}
+			c.Count("refusals_reprinted_after_another_line", int64(stopLines))
 			c.Count("refused_starts", int64(sink.checks))
 			c.Count("log_lines", int64(lines))
 			c.Nontrivial(vNewHash().U64(uint64(idx)).Int(nframes).Sum())
